@@ -270,6 +270,28 @@ sim_viol(const char * oracle, const char * sig, const char * fmt, ...)
 {
 	va_list ap;
 
+	if (!sim_selected(oracle) && sim_c14 && R->af_fired && R->foreign == 0) {
+		/*
+		 * C14: after an injected allocation failure the objects must be
+		 * unchanged and keep refining their models, and nothing may be
+		 * registered for a failed registration: any model oracle that
+		 * fires now contradicts C14.
+		 */
+		static char o2[40], s2[96];
+
+		snprintf(s2, sizeof(s2), "%s:%s", oracle, sig ? sig : "");
+		snprintf(o2, sizeof(o2), "C14.model");
+		R->status = 1;
+		snprintf(R->oracle, sizeof(R->oracle), "%s", o2);
+		snprintf(R->sig, sizeof(R->sig), "%s", s2);
+		va_start(ap, fmt);
+		vsnprintf(R->msg, sizeof(R->msg), fmt, ap);
+		va_end(ap);
+		R->hash = thash;
+		if (sim_verbose)
+			fprintf(stderr, "VIOLATED %s [%s] (after an injected allocation failure): %s\n", R->oracle, R->sig, R->msg);
+		_exit(10);
+	}
 	if (!sim_selected(oracle)) {
 		if (R->foreign++ == 0)
 			snprintf(R->foreign_first, sizeof(R->foreign_first), "%s", oracle);
@@ -594,7 +616,7 @@ print_outcome(FILE * f, const char * tag, uint64_t seed, const struct outcome * 
 struct totals {
 	uint64_t runs, held, viol, crash, internal, hang, foreign, sim_ns, steps, nontrivial;
 	uint64_t cnt[REC_NCNT];
-	uint64_t af_points;
+	uint64_t af_points, c14_skipped;
 };
 
 static void
@@ -657,6 +679,11 @@ batch(uint64_t first, uint64_t count, const char * prefix, int maxreport)
 				print_outcome(jf, "v", s, &o);
 			continue;
 		}
+		if (sim_c14 && R->foreign > 0) {
+			/* the history contradicts another property even without a failure: its models are not a reference */
+			T.c14_skipped++;
+			continue;
+		}
 		if (sim_c14) {
 			/* Enumerate every allocation-failure point of this plan. */
 			struct rec base = *R;
@@ -687,9 +714,9 @@ batch(uint64_t first, uint64_t count, const char * prefix, int maxreport)
 	fprintf(jf, "{\"t\":\"summary\",\"first\":%" PRIu64 ",\"count\":%" PRIu64 ",\"runs\":%" PRIu64
 	    ",\"held\":%" PRIu64 ",\"viol\":%" PRIu64 ",\"crash\":%" PRIu64 ",\"internal\":%" PRIu64
 	    ",\"hang\":%" PRIu64 ",\"foreign\":%" PRIu64 ",\"sim_ns\":%" PRIu64 ",\"steps\":%" PRIu64
-	    ",\"nontrivial\":%" PRIu64 ",\"af_points\":%" PRIu64 ",\"wall_s\":%.3f,\"cnt\":{",
+	    ",\"nontrivial\":%" PRIu64 ",\"af_points\":%" PRIu64 ",\"c14_skipped\":%" PRIu64 ",\"wall_s\":%.3f,\"cnt\":{",
 	    first, count, T.runs, T.held, T.viol, T.crash, T.internal, T.hang, T.foreign, T.sim_ns,
-	    T.steps, T.nontrivial, T.af_points,
+	    T.steps, T.nontrivial, T.af_points, T.c14_skipped,
 	    (double)(t1.tv_sec - t0.tv_sec) + (double)(t1.tv_usec - t0.tv_usec) / 1e6);
 	for (i = 0; engine_counters[i] != NULL && i < REC_NCNT; i++)
 		fprintf(jf, "%s\"%s\":%" PRIu64, i ? "," : "", engine_counters[i], T.cnt[i]);
